@@ -35,6 +35,7 @@ TEMPLATE = "{start_time}|{end_time}|{duration}|" + "|".join("{%s}" % v for v in 
 # (statuses, enabled, disabled) of a ResultFilter; the first one is the empty (falsy) filter
 FILTERS = [([], False, False), (["passed"], False, False), (["failed", "skipped"], False, False), ([], True, False),
            ([], False, True), (["failed"], True, False)]
+VIEWS = ["junit", "stats", "message", "console", "from_suites", "diff"]
 ANSI = re.compile(r"\x1b\[[0-9;]*m")
 KNOWN_FINDINGS = os.path.join(lib.ROOT, "known_findings.d", "C20.json")
 
@@ -634,9 +635,8 @@ Record case := mkC { c_r : report; c_junit : vres jobs; c_stats : vres sobs; c_m
 Definition ok_junit (c : case) := vres_eqb jobs_eqb (model_junit (c_r c)) (c_junit c).
 Definition ok_stats (c : case) := vres_eqb sobs_eqb (model_stats (c_r c)) (c_stats c).
 Definition ok_msg (c : case) := vres_eqb lZ_eqb (model_message (c_r c)) (c_msg c).
-Definition ok_cons (c : case) :=
-  forallb (fun fo => vres_eqb cobs_eqb (model_console (c_r c) (fst fo)) (snd fo)) (c_cons c) &&
-  forallb (fun fo => vres_eqb sobs_eqb (model_fsuites (c_r c) (fst fo)) (snd fo)) (c_fs c).
+Definition ok_cons (c : case) := forallb (fun fo => vres_eqb cobs_eqb (model_console (c_r c) (fst fo)) (snd fo)) (c_cons c).
+Definition ok_fs (c : case) := forallb (fun fo => vres_eqb sobs_eqb (model_fsuites (c_r c) (fst fo)) (snd fo)) (c_fs c).
 
 Definition dt_eqb : dtest -> dtest -> bool := pair_eqb str_eqb status_eqb.
 Record dcase := mkD { d_r1 : report; d_r2 : report; d_f : rfilter; d_add : list dtest; d_rem : list dtest;
@@ -673,7 +673,7 @@ def cases_file(cases, dcases):
     t = HEADER
     t += "Definition cases : list case := [\n%s\n].\n" % ";\n".join(cases)
     t += "Definition dcases : list dcase := [\n%s\n].\n" % ";\n".join(dcases)
-    for name in ("ok_junit", "ok_stats", "ok_msg", "ok_cons"):
+    for name in ("ok_junit", "ok_stats", "ok_msg", "ok_cons", "ok_fs"):
         t += "Eval vm_compute in (find_indexes (fun c => negb (%s c)) cases).\n" % name
     t += "Eval vm_compute in (find_indexes (fun c => negb (ok_diff c)) dcases).\n"
     return t
@@ -744,7 +744,9 @@ def check(run):
 def _report_hit(run, sig, text, desc, tmp, producible, cli=False):
     if any(h["signature"] == sig for h in run.oracle_hits):
         return
-    small = shrink(desc, lambda c: sig in signatures_of(c, tmp, producible, cli)[0])
+    if cli and sig in signatures_of(desc, tmp, producible, False)[0]:
+        cli = False                      # the in-process views show it: no need for the (slow) command line while shrinking
+    small = shrink(desc, lambda c: sig in signatures_of(c, tmp, producible, cli)[0], budget=60 if cli else 200)
     sigs, o = signatures_of(small, tmp, producible, cli)
     texts = [t for s, t in oracle(small, o, producible) if s == sig]
     run.violation(sig, texts[0] if texts else text, {"desc": small, "producible": producible, "cli": cli,
@@ -864,10 +866,10 @@ def _check(run, tmp):
             index.append((None, b))
             k += 1
         outs = run.coq_eval_many(files)
-        names = ["junit", "stats", "message", "console", "diff"]
+        names = VIEWS
         for (a, b), (rc, out) in zip(index, outs):
             lists = parse_lists(out) if rc == 0 else []
-            if len(lists) != 5:
+            if len(lists) != len(VIEWS):
                 run.tie_broken("case file did not evaluate", detail=out[-2000:])
                 continue
             for name, bad in zip(names, lists):
@@ -878,11 +880,14 @@ def _check(run, tmp):
                                        impl=d)
                     else:
                         desc = descs[a + idx]
-                        small = desc if run.oracle_hits and quick is False else \
+                        # shrinking a model/implementation disagreement costs one coqc per candidate: only when no oracle
+                        # hit already gives a concrete failing input, and only for the first two disagreements
+                        n_corr = len([b for b in run.broken if b["kind"] == "correspondence"])
+                        small = desc if (run.oracle_hits or n_corr >= 2) else \
                             shrink(desc, lambda c: _model_disagrees(run, c, tmp, name), budget=25)
                         o = observe(small, tmp)
-                        run.tie_broken("%s view = model" % name, case={"desc": small},
-                                       impl=o[name] if name in o else o["console"])
+                        run.tie_broken("%s view = model" % name, case={"desc": small, "view": name},
+                                       impl=o[{"from_suites": "fsuites"}.get(name, name)])
     run.coverage["rule"] = (
         "seeded report descriptions from harness/gen_reports_views.py (sizes small/medium/large, 30% unfinished runs, 30% "
         "'wild' inconsistent reports, all four statuses + in-progress, failures made of error logs only / failed checks only "
@@ -893,35 +898,56 @@ def _check(run, tmp):
         "status-changed tests at once")
 
 
-def _model_disagrees(run, desc, tmp, name):
+def _model_disagrees(run, desc, tmp, name=None):
+    """name: one of VIEWS (not diff), or None for any view."""
     o = observe(desc, tmp)
     if encodable(o):
         return False
     rc, out = run.coq_eval("shrink", cases_file([case_term(desc, o, False)], []))
     lists = parse_lists(out) if rc == 0 else []
-    if len(lists) != 5:
+    if len(lists) != len(VIEWS):
         return False
-    return bool(lists[["junit", "stats", "message", "console", "diff"].index(name)])
+    if name is None:
+        return any(lists)
+    return bool(lists[VIEWS.index(name)])
 
 
 def replay(path):
+    """Re-executes a replay file on the current tree: 1 if it still fails, 0 if not."""
     r = json.load(open(path))
     rp = r.get("replay") or {}
+    tie = r.get("kind") == "no-failing-input-found"
     if "desc" not in rp:
-        rp = ((r.get("broken") or [{}])[0].get("case")) or {}
+        cands = [b.get("case") for b in (r.get("broken") or []) if isinstance(b.get("case"), dict) and "desc" in b["case"]]
+        rp = cands[0] if cands else {}
     if "desc" not in rp:
-        print("nothing to replay in", path)
+        print("nothing to replay in", path, "(broken proof / translator: run ./check C20)")
         return 2
     tmp = tempfile.mkdtemp(prefix="lccverif_c20_")
     try:
         if "desc2" in rp:
-            d = obs_diff(G.build_report(rp["desc"]), G.build_report(rp["desc2"]), rp.get("filter", FILTERS[0]))
-            hits = list(oracle_diff(rp["desc"], rp["desc2"], rp.get("filter", FILTERS[0]), d))
+            f = rp.get("filter", FILTERS[0])
+            d = obs_diff(G.build_report(rp["desc"]), G.build_report(rp["desc2"]), f)
+            hits = list(oracle_diff(rp["desc"], rp["desc2"], f, d))
             print(json.dumps({"diff": d, "oracle": hits}, indent=1))
+            if tie:
+                run = lib.Run("C20", "quick", 0)
+                rc, out = run.coq_eval("replay", cases_file([], [dcase_term(rp["desc"], rp["desc2"], f, d)]))
+                shutil.rmtree(run.scratch, ignore_errors=True)
+                lists = parse_lists(out) if rc == 0 else []
+                print("model/implementation disagreement:", lists)
+                return 1 if len(lists) != len(VIEWS) or any(lists) else 0
         else:
             o = observe(rp["desc"], tmp, cli=rp.get("cli", False))
             hits = list(oracle(rp["desc"], o, rp.get("producible", True)))
             print(json.dumps({"observed": o, "oracle": hits}, indent=1, default=str))
+            if tie:
+                # no oracle signature to look for: the question is whether model and implementation still disagree
+                run = lib.Run("C20", "quick", 0)
+                bad = _model_disagrees(run, rp["desc"], tmp)
+                shutil.rmtree(run.scratch, ignore_errors=True)
+                print("model/implementation disagreement:", bad)
+                return 1 if bad else 0
     finally:
         shutil.rmtree(tmp, ignore_errors=True)
     want = r.get("signature")
